@@ -9,10 +9,12 @@ import (
 	"errors"
 	"fmt"
 	"os"
+	"runtime"
 	"path/filepath"
 	"sort"
 	"strconv"
 	"strings"
+	"sync"
 	"time"
 
 	"github.com/btcsuite/btcd/btcec/v2"
@@ -1035,6 +1037,12 @@ type c06Case struct {
 
 	panicMsg string
 
+	// held[k]: the account struct a caller (manager goroutine) read earlier
+	// and still holds; direct updates are issued with it, as
+	// HandleAccountConf / HandleAccountExpiry do with the struct they read
+	// before a batch may have completed
+	held map[int]*account.Account
+
 	sawCompleteOk, sawRestage, sawDiscardPending, sawReopenPending bool
 }
 
@@ -1063,6 +1071,7 @@ func (c *c06Case) step(op string) {
 	var (
 		res      string
 		crashDir string
+		raceRes  [2]string
 		watchers = -1
 		directDel = -1
 		stageExp *c06Snap // expected staged version (stage ops)
@@ -1236,16 +1245,112 @@ func (c *c06Case) step(op string) {
 			for _, m := range ms {
 				l = append(l, d.realAMod(m))
 			}
-			cur, found := prev.A[k]
-			if !found {
-				cur = c06Acct{Value: 1, State: 3, Tx: 1}
+			arg := c.held[k]
+			if arg != nil {
+				r.Count("updacct/with-held-struct")
+				if _, a0 := d.fromAcct(arg); prev.A[k] != a0 {
+					r.Count("updacct/with-STALE-struct")
+				}
+			} else if cur, found := prev.A[k]; found {
+				arg = d.toAcct(k, cur)
+			} else {
+				arg = d.toAcct(k, c06Acct{Value: 1, State: 3, Tx: 1})
 			}
-			res = c06ErrName(d.db.UpdateAccount(d.toAcct(k, cur), l...))
+			res = c06ErrName(d.db.UpdateAccount(arg, l...))
 			if a, ok := prev.A[k]; ok {
 				for _, m := range ms {
 					m.apply(&a)
 				}
 				directA = map[int]c06Acct{k: a}
+			}
+		case "raceupd":
+			// two callers update DIFFERENT fields of the same account at the
+			// same time, n rounds: UpdateAccount is one read-modify-write
+			// transaction, so no update may be lost
+			k, v, h, n := atoi(f[1]), int64(atoi(f[2])), int64(atoi(f[3])), atoi(f[4])
+			res = "ok"
+			for i := 0; i < n && res == "ok"; i++ {
+				var wg sync.WaitGroup
+				var e1, e2 error
+				start := make(chan struct{})
+				wg.Add(2)
+				a1 := d.toAcct(k, c06Acct{Value: 1, State: 3, Tx: 1})
+				a2 := d.toAcct(k, c06Acct{Value: 1, State: 3, Tx: 1})
+				go func() {
+					defer wg.Done()
+					<-start
+					e1 = d.db.UpdateAccount(a1, account.ValueModifier(btcutil.Amount(v+int64(i))))
+				}()
+				go func() {
+					defer wg.Done()
+					<-start
+					e2 = d.db.UpdateAccount(a2, account.HeightHintModifier(uint32(h+int64(i))))
+				}()
+				close(start)
+				wg.Wait()
+				if e1 != nil || e2 != nil {
+					res = c06ErrName(e1)
+					if e1 == nil {
+						res = c06ErrName(e2)
+					}
+					break
+				}
+				got, err := d.db.Account(d.w.acctKey[k])
+				if err == nil && (int64(got.Value) != v+int64(i) || int64(got.HeightHint) != h+int64(i)) {
+					c.violate("two concurrent UpdateAccount calls (value %d, height hint %d): one update was lost, "+
+						"stored value %d hint %d (round %d)", v+int64(i), h+int64(i), got.Value, got.HeightHint, i)
+					break
+				}
+			}
+			r.Count("raceupd/" + res)
+			// net effect for the model: the last round's two updates
+			op = fmt.Sprintf("updacct %d v%d.h%d", k, v+int64(n-1), h+int64(n-1))
+			f = strings.Fields(op)
+			if a, ok := prev.A[k]; ok {
+				a.Value, a.Hint = v+int64(n-1), h+int64(n-1)
+				directA = map[int]c06Acct{k: a}
+			}
+		case "racecomplete":
+			// MarkBatchComplete races a burst of (idempotent) direct updates
+			// of one account; the result must be one of the two serial orders
+			k, h, n := atoi(f[1]), int64(atoi(f[2])), atoi(f[3])
+			var wg sync.WaitGroup
+			var ec, eu error
+			start := make(chan struct{})
+			wg.Add(2)
+			go func() {
+				defer wg.Done()
+				<-start
+				for i := 0; i < n; i++ {
+					a := d.toAcct(k, c06Acct{Value: 1, State: 3, Tx: 1})
+					if e := d.db.UpdateAccount(a, account.HeightHintModifier(uint32(h))); e != nil {
+						eu = e
+					}
+					if i == n/2 {
+						runtime.Gosched()
+					}
+				}
+			}()
+			go func() {
+				defer wg.Done()
+				<-start
+				time.Sleep(time.Duration(20+len(c.hist)%7*10) * time.Microsecond)
+				ec = d.db.MarkBatchComplete()
+			}()
+			close(start)
+			wg.Wait()
+			raceRes = [2]string{c06ErrName(ec), c06ErrName(eu)}
+			res = "race"
+		case "hold":
+			// a caller reads the account and keeps the struct
+			k := atoi(f[1])
+			a, err := d.db.Account(d.w.acctKey[k])
+			res = c06ErrName(err)
+			if err == nil {
+				if c.held == nil {
+					c.held = map[int]*account.Account{}
+				}
+				c.held[k] = a
 			}
 		case "acctspend":
 			// the REAL account manager on the daemon's accountStore wrapper
@@ -1260,7 +1365,19 @@ func (c *c06Case) step(op string) {
 					tx.TxIn[0].Witness = wire.TxWitness{bytes.Repeat([]byte{0x01}, 64)}
 				}
 			case "expiry":
-				tx.TxIn[0].Witness = wire.TxWitness{{}, bytes.Repeat([]byte{0x30}, 71), {0x52, 0x21}}
+				if v := (k + t + h) % 5; v == 0 { // p2wsh expiry path
+					tx.TxIn[0].Witness = wire.TxWitness{{}, bytes.Repeat([]byte{0x30}, 71), {0x52, 0x21}}
+				} else {
+					// taproot expiry script path; the expiry is pushed with
+					// 0..3 data bytes, so the leaf script has 36..39 bytes
+					script := append([]byte{0x20}, bytes.Repeat([]byte{0x02}, 32)...)
+					script = append(script, 0xad)
+					push := [][]byte{{0x60}, {0x01, 0x7f}, {0x02, 0x90, 0x01}, {0x03, 0x70, 0x11, 0x01}}[v-1]
+					script = append(append(script, push...), 0xb1)
+					ctrl := append([]byte{0xc0}, bytes.Repeat([]byte{0x03}, 32)...)
+					tx.TxIn[0].Witness = wire.TxWitness{bytes.Repeat([]byte{0x01}, 64), script, ctrl}
+					r.Count(fmt.Sprintf("acctspend/taproot-expiry-script-%d", len(script)))
+				}
 			default:
 				tx.TxIn[0].Witness = wire.TxWitness{{0x01}, {0x02}}
 			}
@@ -1363,10 +1480,31 @@ func (c *c06Case) step(op string) {
 					"pre-call state:\n before %s\n crash  %s", prev.str(), cob.str())
 			}
 		}
-	} else {
+	} else if f[0] != "racecomplete" {
 		r.Emit("C06 "+op, res)
 	}
 	ob := d.observe()
+	if f[0] == "racecomplete" {
+		// which serial order explains the outcome? complete last leaves a
+		// staged account exactly in its staged version; complete first lets
+		// the update's height hint survive
+		k := atoi(f[1])
+		upd := fmt.Sprintf("updacct %d h%s", k, f[2])
+		completeLast := false
+		if got, found := ob.A[k]; found && raceRes[1] == "ok" && strconv.FormatInt(got.Hint, 10) != f[2] {
+			// the updates succeeded but their height hint is gone: the
+			// completion (with account k staged) came last
+			completeLast = true
+		}
+		if completeLast {
+			r.Emit("C06 "+upd, raceRes[1])
+			r.Emit("C06 complete", raceRes[0])
+		} else {
+			r.Emit("C06 complete", raceRes[0])
+			r.Emit("C06 "+upd, raceRes[1])
+		}
+		r.Count("racecomplete/" + raceRes[0])
+	}
 	r.Emit("C06 obs", ob.str())
 	c.prev = ob
 	if ob.bad != "" {
@@ -1380,7 +1518,7 @@ func (c *c06Case) step(op string) {
 	}
 	// ---------------- oracle: the property's English text on real outputs ----------------
 	ok := res == "ok"
-	if f[0] == "reconnect" || f[0] == "reconn" {
+	if f[0] == "reconnect" || f[0] == "reconn" || f[0] == "racecomplete" {
 		ok = true
 	}
 	if !ok && ob.str() != prev.str() {
@@ -1707,6 +1845,52 @@ func (c *c06Case) step(op string) {
 		if !wantDiscard && !c06SnapEq(ob.P, prev.P) {
 			c.violate("staged batch dropped although not finalised / same tx / cleanup failed (%s)", res)
 		}
+	case "racecomplete":
+		// linearizable: the database equals complete;update or update;complete
+		k := atoi(f[1])
+		hh := int64(atoi(f[2]))
+		_, known := prev.A[k]
+		for kk, a := range prev.A {
+			var wants []c06Acct
+			st, staged := c06Acct{}, false
+			if prev.P != nil {
+				st, staged = prev.P.A[kk]
+			}
+			base := a
+			if staged {
+				base = st
+			}
+			w1 := base // complete ; update
+			if kk == k {
+				w1.Hint = hh
+			}
+			wants = append(wants, w1)
+			if kk == k && staged {
+				wants = append(wants, st) // update ; complete
+			}
+			got, found := ob.A[kk]
+			okAny := false
+			for _, w := range wants {
+				if found && acctEq(got, w) {
+					okAny = true
+				}
+			}
+			if !okAny {
+				c.violate("MarkBatchComplete racing UpdateAccount(%d): account %d is %v, no serial order gives that "+
+					"(candidates %v) – an update was applied to a stale read", k, kk, got, wants)
+			}
+		}
+		_ = known
+		if prev.P != nil && ob.P != nil {
+			c.violate("completion in a race did not empty the staging area")
+		}
+		if prev.P != nil {
+			c.sawCompleteOk = true
+		}
+	case "hold":
+		if ob.str() != prev.str() {
+			c.violate("reading an account changed the database")
+		}
 	default: // direct updates
 		r.Count("direct/" + f[0] + "/" + res)
 		if !ok {
@@ -1950,9 +2134,21 @@ func (g *c06Gen) history() []string {
 	for n := 1; n <= g.nO; n++ {
 		ops = append(ops, g.submit(n))
 	}
+	for k := 1; k <= g.nA; k++ {
+		if rng.Intn(2) == 0 {
+			ops = append(ops, fmt.Sprintf("hold %d", k))
+		}
+	}
 	length := 1 + rng.Intn(30)
 	for i := 0; i < length; i++ {
 		switch x := rng.Intn(100); {
+		case x < 2:
+			k := 1 + rng.Intn(g.nA)
+			if rng.Intn(2) == 0 {
+				ops = append(ops, fmt.Sprintf("raceupd %d %d %d %d", k, 1000+rng.Intn(900000), rng.Intn(900), 4+rng.Intn(12)))
+			} else {
+				ops = append(ops, fmt.Sprintf("racecomplete %d %d %d", k, 1000+rng.Intn(900), 10+rng.Intn(30)))
+			}
 		case x < 28:
 			ops = append(ops, g.stage(false))
 		case x < 38:
@@ -1998,6 +2194,8 @@ func (g *c06Gen) history() []string {
 				ms = append(ms, g.omods(1))
 			}
 			ops = append(ops, fmt.Sprintf("updorders %s %s", joinOr2(ns, ","), joinOr2(ms, "/")))
+		case x < 80:
+			ops = append(ops, fmt.Sprintf("hold %d", 1+rng.Intn(g.nA+1)))
 		case x < 83:
 			k := 1 + rng.Intn(g.nA)
 			if rng.Intn(10) == 0 {
